@@ -58,11 +58,17 @@ struct InnerHeap {
 
 impl InnerHeap {
     unsafe fn grow(&mut self) -> bool {
+        #[cfg(feature = "verif-hooks")]
+        if crate::machine::verif::heap_grow_fails() {
+            return false;
+        }
         let new_cap = if self.byte_cap == 0 {
             256 * 256 * 8
         } else {
             2 * self.byte_cap
         };
+        #[cfg(feature = "verif-hooks")]
+        let new_cap = crate::machine::verif::heap_new_cap(self.byte_cap, new_cap);
 
         let new_layout =
             alloc::Layout::from_size_align(new_cap, size_of::<HeapCellValue>()).unwrap();
@@ -1207,4 +1213,34 @@ pub(crate) fn to_local_code_ptr(heap: &Heap, addr: HeapCellValue) -> Option<usiz
             None
         }
     )
+}
+
+#[cfg(feature = "verif-hooks")]
+impl Heap {
+    /// Shrinks the capacity to the length (at least one cell).
+    pub(crate) fn verif_trim(&mut self) {
+        let new_cap = self.inner.byte_len.max(size_of::<HeapCellValue>());
+        if self.inner.byte_cap == 0 || new_cap >= self.inner.byte_cap {
+            return;
+        }
+        unsafe {
+            let old_layout =
+                alloc::Layout::from_size_align(self.inner.byte_cap, size_of::<HeapCellValue>())
+                    .unwrap();
+            let new_ptr = alloc::realloc(self.inner.ptr, old_layout, new_cap);
+            if !new_ptr.is_null() {
+                self.inner.ptr = new_ptr;
+                self.inner.byte_cap = new_cap;
+            }
+        }
+    }
+
+    /// (pointer, length in bytes, capacity in bytes) of the backing block.
+    pub(crate) fn verif_block(&self) -> (*const u8, usize, usize) {
+        (
+            self.inner.ptr as *const u8,
+            self.inner.byte_len,
+            self.inner.byte_cap,
+        )
+    }
 }
